@@ -50,7 +50,13 @@ type server struct {
 var notifMethods = []string{"notifications/initialized", "notifications/cancelled", "notifications/verif"}
 
 func newServer(k kind, groups [][]int, emptyOption bool) (*server, error) {
-	s := &server{k: k, groups: groups, reg: &registry{}}
+	return newServerWith(k, groups, emptyOption, &registry{}, nil)
+}
+
+// newServerWith: `pre` (optional) = ready-made middleware slices, one per option, handed to WithMiddleware /
+// WithSSEMiddleware exactly as they are (`pre[i]...`), so that callers can share a slice between servers.
+func newServerWith(k kind, groups [][]int, emptyOption bool, reg *registry, pre [][]mcp.Middleware) (*server, error) {
+	s := &server{k: k, groups: groups, reg: reg}
 	g := s.reg
 	echo := mcp.NewTool("echo", mcp.WithDescription("echoes the request modifications it sees"))
 	boom := mcp.NewTool("boom", mcp.WithDescription("always fails"))
@@ -59,10 +65,14 @@ func newServer(k kind, groups [][]int, emptyOption bool) (*server, error) {
 	if k.Tr == "streamable" {
 		extra := []mcp.ServerOption{mcp.WithHTTPContextFunc(ctxFunc),
 			mcp.WithToolListFilter(g.toolFilter), mcp.WithPromptListFilter(g.promptFilter), mcp.WithResourceListFilter(g.resourceFilter)}
-		for _, grp := range groups {
+		for gi, grp := range groups {
 			var ms []mcp.Middleware
-			for _, id := range grp {
-				ms = append(ms, g.middleware(id))
+			if pre != nil {
+				ms = pre[gi]
+			} else {
+				for _, id := range grp {
+					ms = append(ms, g.middleware(id))
+				}
 			}
 			extra = append(extra, mcp.WithMiddleware(ms...))
 		}
@@ -95,10 +105,14 @@ func newServer(k kind, groups [][]int, emptyOption bool) (*server, error) {
 	}
 	opts := []mcp.SSEOption{mcp.WithSSEServerLogger(hk.QuietLogger{}), mcp.WithSSEContextFunc(ctxFunc),
 		mcp.WithSSEToolListFilter(g.toolFilter), mcp.WithSSEPromptListFilter(g.promptFilter), mcp.WithSSEResourceListFilter(g.resourceFilter)}
-	for _, grp := range groups {
+	for gi, grp := range groups {
 		var ms []mcp.Middleware
-		for _, id := range grp {
-			ms = append(ms, g.middleware(id))
+		if pre != nil {
+			ms = pre[gi]
+		} else {
+			for _, id := range grp {
+				ms = append(ms, g.middleware(id))
+			}
 		}
 		opts = append(opts, mcp.WithSSEMiddleware(ms...))
 	}
